@@ -9,8 +9,17 @@ import Driver.OpsExt
     runs the Lean model and the specification on it, and prints one verdict per line. -/
 open Lean Driver
 
+/-- `crash`: the search stream of C20; only the outcome class matters (a panic is caught above) -/
+def opCrash : OpFn := fun _ _ out => do
+  let openErr := (out.getObjValAs? String "openErr").toOption.getD ""
+  let planErr := (out.getObjValAs? String "planErr").toOption.getD ""
+  let updateErr := (out.getObjValAs? String "updateErr").toOption.getD ""
+  let gen := (out.getObjValAs? Nat "generated").toOption.getD 0
+  let cls := if openErr != "" then "open-error" else if planErr != "" then "plan-error" else if updateErr != "" then "update-error" else if gen > 0 then "generated" else "nothing-to-do"
+  pure { corr := true, spec := true, nontrivial := true, branch := cls }
+
 def table : List (String × OpFn) :=
-  [("merge", opMerge), ("validate", opValidate), ("rdn", opRdn), ("raw", opRaw), ("validity", opValidity), ("pki", opPki), ("hash", opHash), ("hist", opHist), ("open", opPki), ("pkcs8", opPkcs8), ("pemfile", opPemFile), ("ext", opExt)]
+  [("merge", opMerge), ("validate", opValidate), ("rdn", opRdn), ("raw", opRaw), ("validity", opValidity), ("pki", opPki), ("hash", opHash), ("hist", opHist), ("open", opPki), ("pkcs8", opPkcs8), ("pemfile", opPemFile), ("ext", opExt), ("crash", opCrash)]
 
 def handleLine (view : String) (line : String) : String :=
   match Json.parse line with
@@ -19,6 +28,11 @@ def handleLine (view : String) (line : String) : String :=
     let id := (j.getObjValAs? Nat "id").toOption.getD 0
     match j.getObjValAs? String "op", j.getObjVal? "in", j.getObjVal? "out" with
     | .ok op, .ok i, .ok o =>
+      -- a panic of the implementation inside any operation is a C20 violation, whatever the operation checks
+      match (o.getObjValAs? String "panic").toOption with
+      | some msg =>
+        ({ corr := false, spec := false, clause := s!"C20: panic in {op}: {msg}", branch := "panic" } : Verdict).toJson id op (hash i.compress) |>.compress
+      | none =>
       match table.lookup op with
       | none => (Json.mkObj [("id", id), ("error", s!"unknown op {op}")]).compress
       | some f =>
